@@ -171,6 +171,10 @@ def trace_events(seed, n):
 
 
 def run(ctx: Ctx):
+    # the analysis tool reports the yaw error of every paired row as well (several pairs at once, wrap-arounds in both directions)
+    from . import analyzer as _an
+
+    _an.yaw_traces(ctx)
     res = T.run_model("MC_Heading", "MCH", dict(M=str(M)), invariants=INV, model_values=(), tlc_kwargs=dict(dump=True, allow_violation=False, timeout=1200))
     ctx.add_tlc(res, "MC_Heading M=24 (15 degree grid)")
     states, _ = load_dump(res.dump_path, must_contain='phase = "done"')
